@@ -6,6 +6,8 @@ package main
 
 import (
 	"fmt"
+	"go/ast"
+	"go/parser"
 	"go/token"
 	"go/types"
 	"os"
@@ -29,11 +31,14 @@ type Program struct {
 	Main     *ssa.Package            // httpClient main (nil when not loaded)
 	// all repository functions with bodies (incl. anonymous), excluding lib/testUtils
 	Funcs []*ssa.Function
+	// functions defined in the spec overlay (reference implementations used by E5)
+	SpecFuncs []*ssa.Function
 	// reachability
 	RPLib  map[*ssa.Function]bool // from MakeDecision / FetchParameters
 	RPHttp map[*ssa.Function]bool // from decideHandler/functionsHandler (+ RPLib)
 	Inits  map[*ssa.Function]bool // package initialisers and what only they reach
 	Overlay map[string][]byte
+	Drifted []string // reference functions dropped because they no longer type-check
 }
 
 func repoEnv() []string {
@@ -75,6 +80,129 @@ func prepareModfile(repo, work string) (string, error) {
 	return mod, nil
 }
 
+// specOverlay maps /verif/spec/<dir>/<name>.go to <repo>/<dir>/zz_verifspec_<name>.go (in memory only).
+func specOverlay(repo, specDir string) (map[string][]byte, error) {
+	out := map[string][]byte{}
+	err := filepath.Walk(specDir, func(path string, info os.FileInfo, err error) error {
+		if err != nil {
+			if os.IsNotExist(err) {
+				return nil
+			}
+			return err
+		}
+		if info.IsDir() || !strings.HasSuffix(path, ".go") {
+			return nil
+		}
+		rel, _ := filepath.Rel(specDir, path)
+		b, err := os.ReadFile(path)
+		if err != nil {
+			return err
+		}
+		out[filepath.Join(repo, filepath.Dir(rel), specFilePrefix+filepath.Base(rel))] = b
+		return nil
+	})
+	return out, err
+}
+
+const specFilePrefix = "zz_verifspec_"
+
+type LoadError struct {
+	Msg    string
+	Errors []packages.Error
+}
+
+func (e *LoadError) Error() string { return e.Msg }
+
+// LoadWithSpecs loads the program with the reference implementations overlaid. Reference functions
+// that no longer type-check against the working tree (the anchored code changed its interface) are
+// dropped one by one and reported as drifted.
+func LoadWithSpecs(repo, work string, overlay map[string][]byte) (*Program, []string, error) {
+	var drifted []string
+	for round := 0; round < 12; round++ {
+		prog, err := LoadProgram(repo, work, overlay)
+		if err == nil {
+			prog.Drifted = drifted
+			return prog, drifted, nil
+		}
+		le, ok := err.(*LoadError)
+		if !ok {
+			return nil, drifted, err
+		}
+		removed := 0
+		for _, e := range le.Errors {
+			file, line := splitPos(e.Pos)
+			content, isSpec := overlay[file]
+			if !isSpec {
+				continue
+			}
+			name, newContent := dropFuncAt(content, line)
+			if name == "" {
+				continue
+			}
+			overlay[file] = newContent
+			drifted = append(drifted, name)
+			removed++
+		}
+		if removed == 0 {
+			// errors outside the overlay (the repository itself does not type-check) or unresolvable
+			if _, err2 := LoadProgram(repo, work, nil); err2 != nil {
+				return nil, drifted, err2
+			}
+			return nil, drifted, err
+		}
+	}
+	return nil, drifted, fmt.Errorf("reference implementations could not be reconciled with the working tree")
+}
+
+func splitPos(pos string) (string, int) {
+	parts := strings.Split(pos, ":")
+	if len(parts) < 2 {
+		return pos, 0
+	}
+	line := 0
+	fmt.Sscanf(parts[1], "%d", &line)
+	return parts[0], line
+}
+
+// dropFuncAt blanks the top-level declaration (function, or var/type/const block) enclosing the line.
+func dropFuncAt(content []byte, line int) (string, []byte) {
+	fs := token.NewFileSet()
+	f, err := parser.ParseFile(fs, "spec.go", content, parser.ParseComments)
+	if err != nil {
+		return "", content
+	}
+	for _, d := range f.Decls {
+		start, end := fs.Position(d.Pos()), fs.Position(d.End())
+		if line < start.Line || line > end.Line {
+			continue
+		}
+		name := "declaration"
+		if fd, ok := d.(*ast.FuncDecl); ok {
+			name = fd.Name.Name
+			if fd.Recv != nil && len(fd.Recv.List) > 0 {
+				name = types.ExprString(fd.Recv.List[0].Type) + "." + name
+			}
+		} else if gd, ok := d.(*ast.GenDecl); ok {
+			if gd.Tok == token.IMPORT {
+				return "", content
+			}
+			for _, sp := range gd.Specs {
+				if vs, ok := sp.(*ast.ValueSpec); ok && len(vs.Names) > 0 {
+					name = vs.Names[0].Name
+				}
+			}
+		}
+		out := append([]byte{}, content...)
+		for i := start.Offset; i < end.Offset && i < len(out); i++ {
+			if out[i] != '\n' {
+				out[i] = ' '
+			}
+		}
+		return f.Name.Name + "." + name, out
+	}
+	return "", content
+}
+
 func LoadProgram(repo, work string, overlay map[string][]byte) (*Program, error) {
 	modfile, err := prepareModfile(repo, work)
 	if err != nil {
@@ -104,13 +232,15 @@ func LoadProgram(repo, work string, overlay map[string][]byte) (*Program, error)
 		return nil, fmt.Errorf("no packages loaded")
 	}
 	var errs []string
+	var perrs []packages.Error
 	packages.Visit(initial, nil, func(p *packages.Package) {
 		for _, e := range p.Errors {
 			errs = append(errs, p.PkgPath+": "+e.Error())
+			perrs = append(perrs, e)
 		}
 	})
 	if len(errs) > 0 {
-		return nil, fmt.Errorf("load/type errors:\n  %s", strings.Join(errs, "\n  "))
+		return nil, &LoadError{Msg: fmt.Sprintf("load/type errors:\n  %s", strings.Join(errs, "\n  ")), Errors: perrs}
 	}
 	p := &Program{RepoRoot: repo, Fset: fset, SSAPkgs: map[string]*ssa.Package{}, Overlay: overlay}
 	// collect all repository packages (initial + lib packages reached as deps)
@@ -135,6 +265,9 @@ func LoadProgram(repo, work string, overlay map[string][]byte) (*Program, error)
 		}
 		// the working tree must be what is analysed, not a module-cache copy
 		for _, f := range pk.GoFiles {
+			if _, isOverlay := overlay[f]; isOverlay {
+				continue
+			}
 			if !strings.HasPrefix(f, repo+string(filepath.Separator)) {
 				return nil, fmt.Errorf("package %s file %s is outside %s", pk.PkgPath, f, repo)
 			}
@@ -157,6 +290,20 @@ func LoadProgram(repo, work string, overlay map[string][]byte) (*Program, error)
 	p.collectFuncs()
 	p.computeReachability()
 	return p, nil
+}
+
+// isSpec: the function (or its enclosing function) is defined in a spec overlay file.
+func (p *Program) isSpec(f *ssa.Function) bool {
+	for g := f; g != nil; g = g.Parent() {
+		pos := g.Pos()
+		if !pos.IsValid() && g.Syntax() != nil {
+			pos = g.Syntax().Pos()
+		}
+		if pos.IsValid() && strings.HasPrefix(filepath.Base(p.Fset.Position(pos).Filename), specFilePrefix) {
+			return true
+		}
+	}
+	return false
 }
 
 func (p *Program) isRepoPkg(pkg *ssa.Package) bool {
@@ -190,8 +337,13 @@ func (p *Program) collectFuncs() {
 		if pk == nil || !p.isRepoPkg(pk) || isTestUtils(pk.Pkg.Path()) {
 			continue
 		}
+		if p.isSpec(f) {
+			p.SpecFuncs = append(p.SpecFuncs, f)
+			continue
+		}
 		p.Funcs = append(p.Funcs, f)
 	}
+	sort.Slice(p.SpecFuncs, func(i, j int) bool { return funcKey(p.SpecFuncs[i]) < funcKey(p.SpecFuncs[j]) })
 	sort.Slice(p.Funcs, func(i, j int) bool { return funcKey(p.Funcs[i]) < funcKey(p.Funcs[j]) })
 }
 
@@ -363,6 +515,9 @@ func sameParamsResults(a, b *types.Signature) bool {
 }
 
 func (p *Program) inRepo(f *ssa.Function) bool {
+	if p.isSpec(f) {
+		return false
+	}
 	for g := f; g != nil; g = g.Parent() {
 		if g.Pkg != nil {
 			return p.isRepoPkg(g.Pkg) && !isTestUtils(g.Pkg.Pkg.Path())
